@@ -2285,4 +2285,5 @@ SELFTESTS = [
     ('X4-equality-on-current-position', _POS, _selftest(diffiterator_rules)),
     ('X5-diffobject-roles', _POS, _selftest(diffobject_rules)),
     ('P1-postfix-increment-agrees-with-prefix', _POS, _selftest(postfix_rules)),
+    ('K1-compat-set-equals-class-hierarchy', _POS, _selftest(compat_rules)),
 ]
